@@ -4,11 +4,12 @@ from contracts import c07, sw, enc
 LEVEL = "other"
 TRUSTED = [sw.A1]
 ASSUMPTIONS = [sw.A3]
-EXPLANATION = ('Proved (PyVC, unbounded): the ENCODERS (DAG without path-length scaling, and cyclic) add exactly the rows  pi = x*w, gamma = x*slack, |flow(e) - sum_i pi(e,i)| * scale(e) <= sum_i gamma(e,i)  on every non-ignored edge, for every assignment of the columns (contracts/enc.py); get_objective_value is the sum of the slacks; the product and piecewise helpers are exact (C12). NOT proved: feasibility for k >= covering number and minimality of the total slack; decided by the BOUNDED comparison with an exact enumeration oracle (rc/p_C08.py).')
+EXPLANATION = ('Proved (PyVC, unbounded): get_solution (DAG and cyclic model) returns one weight and one slack per route, each the solver value (float) or the integer within 1/2 of it (int); the ENCODERS (DAG without path-length scaling, and cyclic) add exactly the rows  pi = x*w, gamma = x*slack, |flow(e) - sum_i pi(e,i)| * scale(e) <= sum_i gamma(e,i)  on every non-ignored edge, for every assignment of the columns (contracts/enc.py); get_objective_value is the sum of the slacks; the product and piecewise helpers are exact (C12). NOT proved: feasibility for k >= covering number and minimality of the total slack; decided by the BOUNDED comparison with an exact enumeration oracle (rc/p_C08.py).')
 
 
 def units(tier):
-    return [u for u in c07.all_units() if "C08" in u.props] + [u for u in enc.all_units() if "C08" in u.props] + [u for u in sw.all_units() if "product" in u.name or "piecewise" in u.name]
+    from contracts import c02
+    return [u for u in c07.all_units() if "C08" in u.props] + [u for u in c02.error_model_units() if "C08" in u.props] + [u for u in enc.all_units() if "C08" in u.props] + [u for u in sw.all_units() if "product" in u.name or "piecewise" in u.name]
 
 
 def bounded(tier, seed):
